@@ -13,13 +13,14 @@ PROPERTIES_V = 'theories/C20/Properties.v'
 IMPORTS = 'Require Import FV.Gen.C20 FV.C20.Model FV.C20.Run.'
 CASE_TYPE = 'case'
 CHECK = 'check_case'
-SHARD_SIZE = 300
+SHARD_SIZE = 200
 RULE = ('routing: histories of {logging <module|.|""|None|unknown> <level>, emit(module, levelno), *IDN?, disconnect} on 1..3 '
         'fake connections and 1..3 real Modules behind a real Dispatcher + RemoteLogHandler; levels: all valid names, '
         'case variants, invalid names, ints, floats, None, bools, lists, dicts; every history ends with a probe sweep '
         '(every module x every named level); random (seeded) plus exhaustive short histories. '
         'rotation: real LogfileHandler in a temp dir (time.strftime of mlzlog patched), directories of 0..9 dated files, '
-        'foreign files / sub-directories / future-dated files, retention 0..10, 1..5 successive doRollover calls. '
+        'foreign files / sub-directories / links and directories named like old log files / future-dated files, retention 0..10, '
+        '1..5 successive doRollover calls. '
         'non-trivial: a routing history with at least one delivery, a rotation with at least one rollover; '
         'distinct = distinct case contents')
 ASSUMPTIONS = [
@@ -28,8 +29,9 @@ ASSUMPTIONS = [
     'str.lower() and the sort order of python strings are CPython: lower-casing is done by the harness, the model sorts by '
     'code points (checked against the sorted listing on every case)',
     'mlzlog.LOGLEVELS is library data: the table seen at run time is compared with the table of the model in every case',
-    'file system: os.remove of a directory raises, of a file succeeds; log file names are <root>-YYYY-MM-DD.log with a '
-    'zero padded date, so that name order is date order; no entry named `current` is a directory',
+    'file system: os.remove of a regular file succeeds; log file names are <root>-YYYY-MM-DD.log with a zero padded date, '
+    'so that name order is date order; no entry named `current` is a directory; the file of the day, if it exists, is a '
+    'regular file',
     'one request at a time (Dispatcher.handle_request holds its lock); records are emitted between requests',
 ]
 
@@ -180,7 +182,7 @@ def run_rot(case):
             res = []
             for n in sorted(os.listdir(d)):
                 p = os.path.join(d, n)
-                res.append([n, os.path.isdir(p) and not os.path.islink(p)])
+                res.append([n, os.path.isfile(p) and not os.path.islink(p)])     # regular file, links not followed
             return res
 
         ft.date = case['date0']
@@ -251,7 +253,7 @@ EXC = {None: 'None', 'ValueError': '(Some XValue)', 'TypeError': '(Some XType)',
 
 
 def enc_entry(e):
-    return '{| e_name := %s; e_dir := %s |}' % (gal.string(e[0]), gal.boolean(bool(e[1])))
+    return '{| e_name := %s; e_file := %s |}' % (gal.string(e[0]), gal.boolean(bool(e[1])))
 
 
 def encode(case, obs):
@@ -270,7 +272,7 @@ def encode(case, obs):
     steps = ['{| s_date := %s; s_raised := %s; s_listing := %s |}' % (
         gal.string(s['date']), gal.boolean(s['exc'] is not None), gal.lst(s['listing'], enc_entry))
         for s in obs['steps']]
-    init = [[n, k == 'd'] for n, k in case['entries']]
+    init = [[n, k == 'f'] for n, k in case['entries']]
     return 'CRot %s %s %s %s %s [%s]' % (
         gal.string(case['root']), gal.nat(case['max_days']), gal.lst(init, enc_entry), gal.string(case['date0']),
         gal.lst(obs['listing0'], enc_entry), '; '.join(steps))
@@ -395,8 +397,9 @@ def oracle(case, obs):
 
 
 # ------------------------------------------------------------------ known finding classes (narrow)
-def _tail_slice_signature(case, obs, idx):
-    """the removed entries are exactly what `for p in files[-max_days:]: os.remove(p)` removes"""
+def _head_slice_signature(case, obs, idx):
+    """the removed entries are exactly what the repaired doRollover removes: files[:-max_days] of the sorted regular
+    files named <root>-*.log"""
     n = case['max_days']
     if n <= 0:
         return None
@@ -404,13 +407,9 @@ def _tail_slice_signature(case, obs, idx):
     s = obs['steps'][idx]
     written = f'{case["root"]}-{s["date"]}.log'
     entries = {e[0]: e[1] for e in before}
-    entries.setdefault(written, False)
-    files = sorted(x for x in entries if x != 'current')
-    expect = []
-    for x in files[-n:]:
-        if entries[x]:
-            break
-        expect.append(x)
+    entries.setdefault(written, True)
+    files = sorted(x for x in entries if x.startswith(case['root'] + '-') and x.endswith('.log') and entries[x])
+    expect = files[:-n]
     after = {e[0] for e in s['listing']}
     removed = sorted(x for x in entries if x not in after)
     return expect if removed == sorted(expect) else None
@@ -424,22 +423,21 @@ def _is_unnamed_level(case, obs, failure):
     return op[0] == 'emit' and op[2] not in SPEC_NAMES and s['exc'] == 'KeyError'
 
 
-def _is_tail_removed_newest(case, obs, failure):
+def _is_later_dated_file(case, obs, failure):
+    """a regular log file of this handler dated later than the file being written is present, and the removal is
+    otherwise exactly the one of the repaired code"""
     if case['kind'] != 'rot' or failure['class'] != 'rotation-removed-newest':
         return False
-    return _tail_slice_signature(case, obs, failure['step']) is not None
-
-
-def _is_tail_removed_foreign(case, obs, failure):
-    if case['kind'] != 'rot' or failure['class'] != 'rotation-removed-not-older':
-        return False
-    return _tail_slice_signature(case, obs, failure['step']) is not None
+    idx = failure['step']
+    before = obs['steps'][idx - 1]['listing'] if idx else obs['listing0']
+    date = obs['steps'][idx]['date']
+    later = [e[0] for e in before if e[1] and (parse_dated(case['root'], e[0]) or '') > date]
+    return bool(later) and _head_slice_signature(case, obs, idx) is not None
 
 
 FINDING_CLASSIFIERS = {
     'record_level_without_name': _is_unnamed_level,
-    'rollover_tail_slice_removes_newest': _is_tail_removed_newest,
-    'rollover_tail_slice_removes_foreign': _is_tail_removed_foreign,
+    'rollover_later_dated_file': _is_later_dated_file,
 }
 
 
@@ -537,6 +535,8 @@ def day(i):
 
 FOREIGN = [['comlog', 'd'], ['zz', 'f'], ['aaa.txt', 'f'], ['other-2024-01-01.log', 'f'], ['zsub', 'd'],
            ['été.log', 'f'], ['Current', 'f'], ['current.bak', 'f']]
+# entries carrying the name of an old log file of the handler which are not regular files
+DISGUISED = [['{root}-2000-01-01.log', 'd'], ['{root}-2000-01-02.log', 'l']]
 
 
 def rand_rot(rng):
@@ -558,6 +558,9 @@ def rand_rot(rng):
             entries.append([f'{root}-{day(rng.randint(0, today))}.log.1', 'f'])
         if rng.random() < 0.15:
             entries.append([f'{root}-{day(today + rng.randint(20, 30))}.log', 'f'])   # dated in the future
+        if rng.random() < 0.15:
+            e = rng.choice(DISGUISED)
+            entries.append([e[0].format(root=root), e[1]])
     seen = set()
     entries = [e for e in entries if not (e[0] in seen or seen.add(e[0]))]
     rng.shuffle(entries)
